@@ -89,7 +89,7 @@ def main():
             while time.time() - t0 < args.budget and out["cases"] < args.max_cases:
                 case = next(gen)
                 account(case, run_one(mod, case, drv), "random")
-                if len(out["findings"]) > 200:
+                if len(out["findings"]) > 3000:
                     break
     except Exception:  # pylint: disable=broad-except
         out["infra"].append(traceback.format_exc())
